@@ -21,6 +21,13 @@ impl InterfaceInner {
             return None;
         }
 
+        // RFC 1122 4.2.3.10, RFC 9293 3.10.7.1: segments addressed to a broadcast or
+        // multicast address are silently dropped: no socket may see them, and no reset
+        // (whose source would be that very address) is sent.
+        if dst_addr.is_multicast() || self.is_broadcast(&dst_addr) {
+            return None;
+        }
+
         let tcp_packet = check!(TcpPacket::new_checked(ip_payload));
         let tcp_repr = check!(TcpRepr::parse(
             &tcp_packet,
